@@ -308,10 +308,17 @@ def check_joint_plan(ctx, W, S, members, agents, d, p, ops):
             steps_ref.append(cur)
         ctx.probes["long_joint_plan"] += 1
     lines = [joint_string(s) for s in plan]
+    # layout of the plan text: the member calls of a line with or without the enclosing brackets, separated by a comma,
+    # a blank or both; the file's last line with or without a line terminator
+    style = (ops.draw(2), [",", " ", ", "][ops.draw(3)], ops.draw(2))
+    if style[0] or style[1] != ",":
+        lines = [("" if style[0] else "[") + style[1].join("(nop )" if c is None else C.fmt_call(*c) for c in s)
+                 + ("" if style[0] else "]") for s in plan]
+        ctx.probes["joint_plan_other_layout"] += 1
     site = "MultiAgentTrajectoryExporter.parse_plan"
     try:
         if ops.chance(1, 2):
-            path = C.put(ctx, "joint.plan", "\n".join(lines))
+            path = C.put(ctx, "joint.plan", "\n".join(lines) + ("\n" if style[2] else ""))
             triplets = exporter.parse_plan(p, plan_path=path)
         else:
             triplets = exporter.parse_plan(p, action_sequence=lines)
